@@ -173,6 +173,65 @@ fn replay_model(w: &Value) -> Option<Result<Vec<String>, String>> {
     Some(r)
 }
 
+fn rx_brief(r: &RxS) -> String {
+    let ctx: Vec<String> = r.mem.frags.iter().map(|f| match f {
+        None => "-".to_string(),
+        Some((c, b)) => format!("[id {} label {} pt {:#06x} total {} received {} ({}) reuse {} exts {:?} buffer {}]", c.frag_id, c.label.short(), c.pt, c.total_len, c.pdu_len, hex(&b[..(c.pdu_len as usize).min(b.len()).min(16)]), c.from_reuse, c.exts, b.len()),
+    }).collect();
+    format!("label memory {:?}, free buffers {:?}, slots {}", r.last.map(|l| l.short()), r.mem.free.iter().map(|b| b.len()).collect::<Vec<_>>(), ctx.join(" "))
+}
+
+/// Generic fallback: a witness that names the packets fed to a receiver ("packet" [+ "tail"] or "packets") and,
+/// optionally, the receiver they were fed to ("receiver": {slots, storage, buffers, last_label, contexts:[...]}),
+/// is re-executed on a real receiver built through the public constructor + hooks: peek and decap per packet.
+fn replay_feed(w: &Value) -> Option<Vec<String>> {
+    let mut pkts: Vec<Vec<u8>> = vec![];
+    if let Some(a) = w.get("packets").and_then(|x| x.as_array()) {
+        pkts = a.iter().filter_map(|x| x.as_str()).map(unhex).collect();
+    } else if let Some(p) = w.get("packet").and_then(|x| x.as_str()) {
+        let mut q = unhex(p);
+        if let Some(t) = w.get("tail").and_then(|x| x.as_str()) {
+            q.extend(unhex(t));
+        }
+        pkts.push(q);
+    }
+    if pkts.is_empty() {
+        return None;
+    }
+    let r = w.get("receiver");
+    let g = |k: &str, d: u64| r.and_then(|r| num(r, k)).unwrap_or(d) as usize;
+    let (slots, storage, nbuf) = (g("slots", 2), g("storage", 64), g("buffers", 3));
+    let mut rxs = RxS::new(slots, storage, &vec![storage; nbuf]);
+    if let Some(l) = r.and_then(|r| r.get("last_label")).and_then(|x| x.as_str()) {
+        rxs.last = Some(parse_label(l));
+    }
+    for c in r.and_then(|r| r.get("contexts")).and_then(|x| x.as_array()).cloned().unwrap_or_default() {
+        let ctx = CtxS {
+            label: c.get("label").and_then(|x| x.as_str()).map(parse_label).unwrap_or(L3A),
+            pt: num(&c, "pt").unwrap_or(0x0800) as u16,
+            frag_id: num(&c, "frag_id").unwrap_or(0) as u8,
+            total_len: num(&c, "total_len").unwrap_or(40) as u16,
+            pdu_len: num(&c, "pdu_len").unwrap_or(0) as u16,
+            from_reuse: c.get("from_reuse").and_then(|x| x.as_bool()).unwrap_or(false),
+            exts: vec![],
+        };
+        rxs.mem.set_ctx(ctx, vec![0u8; storage]);
+    }
+    let mut lines = vec![format!("receiver: {}", rx_brief(&rxs))];
+    let mut d = rxs.build(DefaultCrc {}, crate::rxalpha::mgr_std());
+    for p in &pkts {
+        let pk = catch(|| d.get_label_or_frag_id(p)).map(|r| format!("{:?}", r.map_err(|e| format!("{:?}", e)))).unwrap_or_else(|e| format!("PANIC at {}", e.0));
+        let o = do_decap(&mut d, p);
+        lines.push(format!("peek({}) -> {}", hex(p), pk));
+        lines.push(format!("decap -> {}", o.brief()));
+        if let DecapOut::Completed { buf, .. } = &o {
+            let _ = d.provision_storage(vec![0u8; buf.len()].into_boxed_slice());
+        }
+    }
+    lines.push(format!("receiver after: {}", rx_brief(&RxS::of(&d))));
+    Some(lines)
+}
+
 pub fn replay_file(path: &str) -> i32 {
     let s = match std::fs::read_to_string(path) {
         Ok(s) => s,
@@ -196,7 +255,10 @@ pub fn replay_file(path: &str) -> i32 {
         if let Some(r) = replay_model(w) {
             return Some(r);
         }
-        replay_call(w).map(Ok)
+        if let Some(r) = replay_call(w) {
+            return Some(Ok(r));
+        }
+        replay_feed(w).map(Ok)
     };
     match (run(w), run(w)) {
         (Some(Ok(a)), Some(Ok(b))) => {
